@@ -23,6 +23,17 @@ def validate_one(args):
         data = open(path, 'rb').read()
         f = P.ParquetFile(data)
         res['problems'] = f.validate()
+        if 'structure-only' in open(path[:-8] + '.meta').read():
+            # a history in which the application ignored a refused call: only the file's own consistency is judged
+            res['structure_only'] = True
+            for gi, rg in enumerate(f.row_groups):
+                for ci in range(len(rg['columns'])):
+                    try:
+                        ch = f.read_chunk(gi, ci); res['pages'] += len(ch.pages)
+                    except P.ParquetError as e:
+                        res['problems'].append('table: ' + str(e))
+            res['rows'] = f.num_rows
+            return res
         cols, groups = P.tdmp_read(tdmp)
         # table equality (ignoring empty row groups on both sides)
         fg = [(gi, rg) for gi, rg in enumerate(f.row_groups) if rg['num_rows'] > 0]
@@ -119,12 +130,14 @@ def main(c):
                 c.fail_harness('reference reader crashed on %s: %s' % (r['path'], r['harness'])); continue
             data = open(r['path'], 'rb').read()
             c.case(hashlib.sha1(data).hexdigest()[:16], nontrivial=r['rows'] > 0)
+            if r.get('structure_only'):
+                c.count('files_closed_ok_after_a_refused_batch_validated')
             c.count('files_validated'); c.count('pages_parsed', r['pages']); c.count('chunks_with_2plus_pages', r['chunks_multi_page'])
             c.count('pages_with_crc', r['crc_pages']); c.count('pages_with_statistics', r['stat_pages'])
             if r['codec'] is not None:
                 c.count('files_codec_%d' % r['codec'])
             for pmsg in r['problems']:
-                c.violation('refreader:' + canon(pmsg), '%s: %s' % (os.path.basename(r['path']), pmsg),
+                c.violation(('after-refused-batch:' if r.get('structure_only') else 'refreader:') + canon(pmsg), '%s: %s' % (os.path.basename(r['path']), pmsg),
                             files={'file.parquet': data, 'model.tdmp': open(r['path'][:-8] + '.tdmp', 'rb').read(), 'meta.txt': open(r['path'][:-8] + '.meta').read()})
             if len(c.samples) < 3 and r['rows'] > 0:
                 c.sample({'file': os.path.basename(r['path']), 'bytes': len(data), 'rows': r['rows'], 'pages': r['pages'], 'problems': r['problems'][:2]})
